@@ -77,6 +77,9 @@ def expand(block, tier):
                         fmts += ["md", "xlsx"]
                     for fmt in fmts:
                         yield {"ch": ch, "s": s, "ref": ref, "lang": lang, "fmt": fmt}
+                    # the same text written in a second cell of the same kind (another row, or the other language)
+                    if ch in OUTPUT_CH and (L == 1 or tier == "thorough") and ref in ("none", "between", "after"):
+                        yield {"ch": ch, "s": s, "ref": ref, "lang": lang, "fmt": "dict", "twin": True}
 
 
 def required_outcomes(tier):
@@ -87,19 +90,35 @@ def with_ref(s, ref):
     return {"none": s, "before": "${t0} " + s, "after": s + " ${t0}", "between": s + " ${t0} " + s}[ref]
 
 
-def build(ch, text, lang):
+def build(ch, text, lang, twin=False):
     q = {"type": "select_one c", "name": "q", "label": "Q"}
+    q2 = {"type": "select_one c", "name": "q2", "label": "Q2"}
     rows = [{"type": "text", "name": "t0", "label": "T0"}, {"type": "begin group", "name": "g", "label": "G"}, q, {"type": "end group"}]
+    if twin:
+        rows[3:3] = [q2]
+        rows += [{"type": "begin group", "name": "g2", "label": "G2"}, {"type": "text", "name": "t2", "label": "T2"}, {"type": "end group"}]
     chs = [{"list_name": "c", "name": "x", "label": "X"}, {"list_name": "c", "name": "y", "label": "Y"}]
     st = {}
 
-    def put(row, col):
+    def put(row, col, second=False):
         if lang:
             row.pop(col, None)
             row[f"{col}::en"] = text
-            row[f"{col}::fr"] = "F"
+            row[f"{col}::fr"] = text if (twin and not second) else "F"
         else:
             row[col] = text
+
+    if twin and not lang:
+        if ch in ("label", "hint", "guidance_hint", "constraint_message", "required_message"):
+            put(q2, ch, True)
+            if ch == "constraint_message":
+                q2["constraint"] = ". != 'k'"
+            if ch == "required_message":
+                q2["required"] = "yes"
+        elif ch == "glabel":
+            put(rows[-3], "label", True)
+        elif ch == "clabel":
+            put(chs[1], "label", True)
 
     if ch in ("label", "hint", "guidance_hint", "constraint_message", "required_message"):
         put(q, ch)
@@ -142,17 +161,16 @@ def skeleton(el):
 
 
 @functools.lru_cache(maxsize=None)
-def inert_skeleton(ch, ref, lang, fmt):
-    wb = build(ch, with_ref("x", ref), lang)
+def inert_skeleton(ch, ref, lang, fmt, twin=False):
+    wb = build(ch, with_ref("x", ref), lang, twin)
     src, kw = render.render(wb, fmt)
     out = run_convert(src, **kw)
     assert out.kind == "ok", (ch, ref, lang, out.msg)
     return skeleton(O.parse(out.xform))
 
 
-def locate(obs, ch, lang):
+def locate(obs, ch, lang, px="/data/g/q", gpath="/data/g", citem=0, pick_lang="en"):
     """-> ('mixed', element) | ('attr', string) | ('text', string) | None"""
-    px = "/data/g/q"
     itx = {}
     for lg, d, texts in obs.itext:
         for tid, vals in texts:
@@ -167,7 +185,7 @@ def locate(obs, ch, lang):
             return ("mixed", el)
         else:
             tid = tid_default
-        pick = "en" if lang else None
+        pick = pick_lang if lang else None
         for lg, tab in itx.items():
             if (pick is None and lg != "fr") or lg == pick:
                 v = tab.get(tid, {}).get(form)
@@ -179,8 +197,8 @@ def locate(obs, ch, lang):
         c = ctrls.get(px)
         return via(c.find(O.X + "label") if c is not None else None, px + ":label")
     if ch == "glabel":
-        c = ctrls.get("/data/g")
-        return via(c.find(O.X + "label") if c is not None else None, "/data/g:label")
+        c = ctrls.get(gpath)
+        return via(c.find(O.X + "label") if c is not None else None, gpath + ":label")
     if ch == "hint":
         c = ctrls.get(px)
         return via(c.find(O.X + "hint") if c is not None else None, px + ":hint")
@@ -198,7 +216,7 @@ def locate(obs, ch, lang):
         return via(None, tid)
     if ch in ("clabel", "cextra"):
         inst = {i: el for i, _, el in obs.secondary_instances()}.get("c")
-        it = inst.find(O.X + "root").findall(O.X + "item")[0]
+        it = inst.find(O.X + "root").findall(O.X + "item")[citem]
         if ch == "cextra":
             e = it.find(O.X + "extra")
             return ("text", e.text or "") if e is not None else None
@@ -231,7 +249,8 @@ def locate(obs, ch, lang):
 def check_one(case):
     ch, s, ref, lang, fmt = case["ch"], case["s"], case["ref"], case["lang"], case["fmt"]
     text = with_ref(s, ref)
-    wb = build(ch, text, lang)
+    twin = bool(case.get("twin"))
+    wb = build(ch, text, lang, twin)
     if fmt == "md" and not render.md_representable(wb):
         return {"outcome": "not-representable", "nt": False, "viol": [], "tr": 1}
     src, kw = render.render(wb, fmt)
@@ -248,7 +267,7 @@ def check_one(case):
     except O.ParseFailure as e:
         return {"outcome": "ok", "nt": False, "viol": [(f"not-wellformed:{sig}", f"s={s!r}: {e}")], "tr": ntr}
     sk = skeleton(obs.root)
-    if sk != inert_skeleton(ch, ref, lang, fmt):
+    if sk != inert_skeleton(ch, ref, lang, fmt, twin):
         viol.append((f"skeleton-changed:{sig}", f"s={s!r}"))
     loc = locate(obs, ch, lang)
     stripped = ch in SURVEY_CH or fmt != "dict"
@@ -291,5 +310,24 @@ def check_one(case):
                     viol.append((f"text-altered:{sig}", f"got {got!r} want {want!r}"))
             elif got != want:
                 viol.append((f"text-altered:{sig}", f"got {got!r} want {want!r}"))
+    if twin and not viol:
+        # the second cell holding the same text must show it too (character for character, one output per reference)
+        if lang:
+            loc2 = locate(obs, ch, lang, pick_lang="fr")
+        else:
+            loc2 = locate(obs, ch, lang, px="/data/g/q2", gpath="/data/g2", citem=1)
+        flat2 = None
+        if loc2 is not None:
+            kind2, got2 = loc2
+            if kind2 == "mixed":
+                flat2 = got2.text or ""
+                for c in got2:
+                    flat2 += "${t0}" if O.local(c.tag) == "output" else "<%s>" % O.local(c.tag)
+                    flat2 += c.tail or ""
+            elif got2 is not None:
+                subs = align(want, got2) if ref != "none" else None
+                flat2 = want if (ref != "none" and subs is not None and len(subs) == 1) else got2
+        if flat2 is None or norm_ws(flat2) != norm_ws(want):
+            viol.append((f"twin-cell-text-altered:{sig}", f"second cell shows {flat2!r} want {want!r}"))
     nt = bool(SIGNIFICANT & set(s))
     return {"outcome": "ok", "nt": nt and not viol, "viol": viol, "tr": ntr}
